@@ -4,7 +4,7 @@ import ast
 from ..astutil import norm, const, NO, compare, tail, names
 from ..index import AnalysisError, walk_own
 from ..absint import Explorer, UNKNOWN
-from .common import (site, key, calls_to, method_calls, nodes_with, guard_check, stores_to_name, cfg_attr, resp_var)
+from .common import (site, key, calls_to, method_calls, nodes_with, guard_check, stores_to_name, cfg_attr, resp_var, through_locals)
 
 GLOG = "gunicorn.glogging"
 RESP = "gunicorn.http.wsgi.Response"
@@ -152,7 +152,15 @@ def r2(ctx):
             d = dict((const(k, NO), v) for k, v in zip(x.keys, x.values))
     ctx.need(d is not None, "C19.R2: atoms literal not found")
     RS = fa.params[1]
-    ctx.check("C19.R2", "'sent'" in norm(d["b"]) and RS in names(d["b"]) and "'sent'" in norm(d["B"]) and RS in names(d["B"]), key(fa, "atoms-b"), site(fa), "the b/B atoms do not read resp.sent", "b, B <- resp.sent")
+    def _reads_sent(e):
+        # `getattr(resp, 'sent', ..)` / `resp.sent` in the atom's expression, also through a local assigned exactly once
+        for x in through_locals(fa, e):
+            if isinstance(x, ast.Call) and isinstance(x.func, ast.Name) and x.func.id == "getattr" and len(x.args) >= 2 and const(x.args[1], NO) == "sent" and RS in names(x.args[0]):
+                return True
+            if isinstance(x, ast.Attribute) and x.attr == "sent" and RS in names(x.value):
+                return True
+        return False
+    ctx.check("C19.R2", _reads_sent(d["b"]) and _reads_sent(d["B"]), key(fa, "atoms-b"), site(fa), "the b/B atoms do not read resp.sent", "b, B <- resp.sent")
     sv = d.get("s")
     okk = isinstance(sv, ast.Name) and any("%s.status" % RS in norm(s.ast.value) for s in stores_to_name(fa, sv.id) if isinstance(s.ast, ast.Assign))
     ctx.check("C19.R2", okk, key(fa, "atoms-s"), site(fa), "the s atom is not derived from resp.status", "s <- resp.status")
